@@ -241,6 +241,10 @@ def run(ctx):
     if base is None:
         ctx.inconclusive("no usable behaviour for the binding self-test")
         return
+    # connection accounting does not depend on how the messages of a call are stepped: one drive is enough
+    # for the behaviours that wait for the proxy's timers
+    for i, b in enumerate(chosen_ticks + burst_tick + chosen_out):
+        b["drive"] = ("lock", "free")[(i + ctx.seed) % 2]
     selftests = [corrupt(base, how) for how in ("resp", "status", "backend", "conn")]
     allb = calls + plain + burst_plain + chosen_ticks + burst_tick + chosen_out + selftests
     for i, b in enumerate(allb):
